@@ -260,7 +260,7 @@ def case_read_sync(ctx, xa):
     ns = 3
     nc = xa + dw
     txt = sglx.nidq_meta_text(mn, ma, xa, dw, ns=format(ns / 30003.0003, ".20f"))
-    words = [[ctx.real(f"a{s}_{c}", -32768, 32767) for c in range(xa)] + [ctx.bv(f"d{s}", 16)] for s in range(ns)]
+    words = [[ctx.real(f"a{s}_{c}", -32768, 32767, integer_valued=True) for c in range(xa)] + [ctx.bv(f"d{s}", 16)] for s in range(ns)]
     content = arrays.mk([e for r in words for e in r], shape=(ns, nc), tag=np.dtype(np.int16))
     F = fakefs.install(fakefs.FakeFS())
     F.add("/d/x.nidq.meta", True, len(txt), [{"pos": 0, "text": txt}])
